@@ -10,8 +10,9 @@ package xcrypto
 // all structural checks in linkchain behave as with the real library.
 //
 // VERIFIER: accepts either a stand-in proof (recognised by its binding digest
-// in field T) or, for the 64-bit variant, a GENUINE Monero Bulletproof, which
-// is checked with the genuine verification algorithm (bulletproof_real.go).
+// in field T) or a GENUINE Bulletproof (Monero's for 64 bits, linkchain's
+// N = 128 variant for 128 bits), which is checked with the genuine
+// verification algorithm (bulletproof_real.go).
 //
 // Stand-in layout for n = len(V) outputs, bits in {64, 128}:
 //
@@ -197,10 +198,7 @@ func verBulletproof(p *types.Bulletproof, bits int) (bool, error) {
 	if standIn {
 		return ok, nil
 	}
-	if bits == 64 {
-		return verBulletproofGenuine(p), nil
-	}
-	return false, nil
+	return verBulletproofGenuine(p, bits), nil
 }
 
 // TlvProveRangeBulletproof proves that every amount (32-byte little-endian
@@ -221,7 +219,7 @@ func TlvVerBulletproof(bp *types.Bulletproof) (bool, error) {
 	return verBulletproof(bp, 64)
 }
 
-// TlvVerBulletproof128 verifies a 128-bit range proof (stand-in proofs only).
+// TlvVerBulletproof128 verifies a 128-bit range proof for the commitments 8*V[j].
 func TlvVerBulletproof128(bp *types.Bulletproof) (bool, error) {
 	return verBulletproof(bp, 128)
 }
